@@ -11,6 +11,21 @@ for line in open(os.path.join(VERIF, "properties.jsonl")):
 
 # id -> (technique, level text, level note, design ref, engine spec modules)
 CLAIMED = {
+    "C01": ("TLA+ spec Die (description universe + greedy cover state machine) model-checked by TLC; TLC-generated "
+            "descriptions built as real Die objects under 7 float embeddings; verdict and reported lists trace-validated by TLC (DieTrace)",
+            "Every description (valid and invalid, incl. regions leaving the die) of the bounded universe is enumerated by TLC; "
+            "accept <=> valid and exact tiling are TLC invariants of the model and TLC-evaluated clauses on every real observation; "
+            "random larger guillotine dies with injected defects follow the same path.",
+            "bounded universe (3x3 die, <=2 regions with margin, <=3 inside, sliver/1000:1 metrics in thorough; random to 12x12, 10 regions); "
+            "floats sampled by 7 origin-0 embeddings; each fixed rectangle is its own fixed module",
+            "DESIGN.md 4 (C01)", ["Geometry", "DieOps", "Die", "DieMC", "DieTrace"]),
+    "C11": ("TLA+ spec Die (split_refinable_regions as phase-1 step + one action per phase-2 iteration, initial_grid) model-checked by TLC; "
+            "requests replayed on real Die objects under 7 embeddings; lists after every call trace-validated by TLC (DieTrace post-conditions)",
+            "TLC checks count / parent+tag / per-parent tiling / aspect-ratio / untouched blockages+fixed as invariants of the modelled algorithm "
+            "for every valid description of the bounded universe, and evaluates the same clauses on every observed call (single requests and "
+            "two-step sequences, r in {1.42,1.5,1.75,2,3}, n <= 30).",
+            "bounded universe (3x3 die, <=2 regions; random dies to 12x12); dies with no refinable region excluded; 7 embeddings",
+            "DESIGN.md 4 (C11)", ["Geometry", "DieOps", "Die", "DieMC", "DieTrace"]),
     "C18": ("TLA+ spec GeometryOps model-checked by TLC; TLC-generated cases replayed on Rectangle under 8 float "
             "embeddings; observed results trace-validated by TLC (GeometryTrace)",
             "Every operand pair / single rectangle of a bounded lattice with every public operation and argument is "
